@@ -78,7 +78,9 @@ CHECKS = {
              'request leg: truncation, garbling, insertion, span repetition, oversized integer literals, structure-aware '
              'member replacement, nesting up to 64; documents composed by a hostile peer from per-member alphabets) '
              'must yield None or (text, codes) with a valid, non-empty JSON-RPC 2.0 response document and agreeing '
-             'codes; async batches run under seeded schedules with suspending methods. Sampled inputs, not enumerated.',
+             'codes; async batches run under seeded schedules with suspending methods. A fifth of the generated documents '
+             'is respelled in another legal JSON form (escapes in names and strings, whitespace, raw unicode, duplicate '
+             'member names). Sampled inputs, not enumerated.',
         note='Trusted: ref_jsonrpc.valid_response. Weakest simulation content of the claimed set: only the async batch '
              'path has a schedule in it; the simulator contributes traffic, wire-fault model and monitor.',
         technique='deterministic simulation: wire-fault injection on the request leg + invariant monitor at the server seam',
@@ -158,7 +160,10 @@ CHECKS = {
              'deserialisation error, acceptance, related links, positional and tuple attribution in call order, first '
              'failing call, batch-level error) is compared with a reference matcher.'
              ' A third family re-uses one batch object: sent, grown (extend / append / add / getitem), sent again with a '
-             'permuted reply.',
+             'permuted reply. match.concurrent: one kept batch wrapper with 2-3 explicit sends in flight at the same time '
+             'on the async client, each reply faulted on its own (per-request keyed fault scripts) and judged on its own. '
+             'match.retried: the client retries on the identity error; 2-3 successive deliveries, each with its own '
+             'fault, must each be matched afresh against the same request.',
         note='Trusted: ref_client.match_single / match_batch (Appendix F.2). Open zones (null ids inside a batch array, '
              'non-strict mismatches) are not judged.',
         technique='deterministic simulation: enumerated response-leg faults on real client-server exchanges, reference matcher',
@@ -207,7 +212,8 @@ CHECKS = {
              'JSON-equal, application/json, status function applied, 200 + empty body for no verdict, 415 and nothing '
              'executed for other media types) and the three replies with each other.'
              ' Each run issues 1-3 POSTs on the same long-lived applications (main endpoint and a sub-endpoint with its '
-             'own dispatcher; the serving dispatcher is identified).',
+             'own dispatcher; the serving dispatcher is identified). Network delivery fault on the aiohttp hop: the body '
+             'reaches the handler in 2-3 in-order pieces on the virtual clock, the later ones while the handler runs.',
         note='Trusted: the in-process hops (WSGI test clients; aiohttp handler awaited on SimLoop with a mocked request '
              'and a real StreamReader). One hop, no clock: weakest simulation content after C01. Known finding: Flask 3.1 '
              'JSON provider vs pjrpc encoder (see known_findings.json).',
